@@ -349,6 +349,8 @@ func run(line string) string {
 		}
 		return fmt.Sprintf("ok hashes=%s pt=%s bytes=%s arm=[%s] rest=%s", showHashes(b.Headers["Hash"]), hx.Hex(b.Plaintext), hx.Hex(b.Bytes),
 			showBlock(b.ArmoredSignature), hx.Hex(rest))
+	case "krtok":
+		return krTok(o.List("toks"))
 	case "kr":
 		el, _ := openpgp.ReadKeyRing(bytes.NewReader(data))
 		touch(el)
@@ -401,6 +403,113 @@ func run(line string) string {
 		return "no-panic"
 	}
 	return "bad-op"
+}
+
+// ---- key-ring assembly over token sequences built from the packets of the two RSA test keys
+
+var (
+	tokOnce sync.Once
+	tokPkt  = map[string][]byte{}
+	tokKey  = map[uint64]int{}
+	tokUid  = map[string]int{}
+)
+
+func tokInit() {
+	tokOnce.Do(func() {
+		loadSeeds()
+		d := seedBy["read.testKeys1And2Hex"].data
+		names := []string{"P1", "U1", "S1", "T", "K1", "B1", "T", "P2", "U2", "S2", "T", "K2", "B2", "T"}
+		for i, p := range walk(d) {
+			tokPkt[names[i]] = d[p.start:p.end]
+		}
+		el, err := openpgp.ReadKeyRing(bytes.NewReader(d))
+		if err != nil || len(el) != 2 {
+			panic("test keys")
+		}
+		for i, e := range el {
+			tokKey[e.PrimaryKey.KeyId] = i + 1
+			tokKey[e.Subkeys[0].PublicKey.KeyId] = i + 3
+			for n := range e.Identities {
+				tokUid[n] = i + 1
+			}
+		}
+		tokPkt["G"] = opaque(17, []byte{2, 1, 0})                               // user attribute: parsed, ignored by ReadEntity
+		tokPkt["X"] = opaque(2, []byte{5, 0, 0, 0, 0, 0, 0})                    // signature version 5: UnsupportedError
+		tokPkt["Y"] = opaque(2, []byte{4, 0x13, 1, 8, 0, 1, 0, 0, 0, 0, 0, 0}) // zero-length subpacket: StructuralError
+	})
+}
+
+func krTok(toks []string) string {
+	tokInit()
+	var buf bytes.Buffer
+	for _, t := range toks {
+		p, ok := tokPkt[t]
+		if !ok {
+			return "bad-op"
+		}
+		buf.Write(p)
+	}
+	el, err := openpgp.ReadKeyRing(&buf)
+	if err != nil {
+		return "err"
+	}
+	if len(el) == 0 {
+		return "ok -"
+	}
+	var es []string
+	for _, e := range el {
+		var us, ks []string
+		var ui []int
+		for n := range e.Identities {
+			ui = append(ui, tokUid[n])
+		}
+		for i := range ui {
+			for j := i; j > 0 && ui[j] < ui[j-1]; j-- {
+				ui[j], ui[j-1] = ui[j-1], ui[j]
+			}
+		}
+		for _, u := range ui {
+			us = append(us, fmt.Sprint(u))
+		}
+		for _, k := range e.Subkeys {
+			ks = append(ks, fmt.Sprint(tokKey[k.PublicKey.KeyId]))
+		}
+		es = append(es, fmt.Sprintf("%d[%s;%s]", tokKey[e.PrimaryKey.KeyId], strings.Join(us, " "), strings.Join(ks, " ")))
+	}
+	return "ok " + strings.Join(es, ",")
+}
+
+func genKrTok(g *hx.Gen) {
+	r := g.R
+	base := []string{"P1", "U1", "S1", "T", "K1", "B1", "T", "P2", "U2", "S2", "T", "K2", "B2", "T"}
+	all := []string{"P1", "P2", "K1", "K2", "U1", "U2", "S1", "S2", "B1", "B2", "G", "T", "X", "Y"}
+	var toks []string
+	switch r.Intn(4) {
+	case 0:
+		for i, n := 0, r.Range(0, 12); i < n; i++ {
+			toks = append(toks, hx.Pick(r, all))
+		}
+	default:
+		toks = append(toks, base[:r.PickInt(7, 14, 14, 14)]...)
+		for k, n := 0, r.Range(0, 4); k < n && len(toks) > 0; k++ {
+			i := r.Intn(len(toks))
+			switch r.Intn(5) {
+			case 0:
+				toks = append(toks[:i:i], toks[i+1:]...)
+			case 1:
+				toks = append(toks[:i:i], append([]string{toks[i]}, toks[i:]...)...)
+			case 2:
+				j := r.Intn(len(toks))
+				toks[i], toks[j] = toks[j], toks[i]
+			case 3:
+				toks = append(toks[:i:i], append([]string{hx.Pick(r, all)}, toks[i:]...)...)
+			default:
+				toks[i] = hx.Pick(r, all)
+			}
+		}
+	}
+	g.Stat("krtok")
+	g.Emit("krtok toks=%s", hx.JoinStrs(toks))
 }
 
 func firstPartial(b byte) int64 { return int64(1) << (b & 0x1f) }
@@ -1394,6 +1503,10 @@ func gen(g *hx.Gen) {
 	for i := 0; i < n; i++ {
 		if r.Chance(1, 400) {
 			genFinding(g)
+			continue
+		}
+		if r.Chance(1, 12) {
+			genKrTok(g)
 			continue
 		}
 		switch k := r.Intn(40); {
